@@ -59,6 +59,7 @@ def check(program: Program, run: Run) -> None:
     run.rule("R1 quote-wrap requires escape: inner text of every '...'-span is escaped(q), quote-free by kind, or a rendered slot")
     run.rule("R2 dialect escape coverage: every value position of a dialect builder constructs its wrapper via self._wrapper_cls (or the base wrapper consults ctx.dialect)")
     run.rule("R3 value wrappers emit one literal fragment on every path")
+    run.rule("R6 exhaustive table (value kind x wrapper class) on typed symbolic values: each quoted kind is one quoted literal with the quote doubled, a wrapper that doubles backslashes for any kind does so for every kind that can contain one, and a str-mixin Enum member is never formatted as the member")
     run.rule("R5 exact str: text placed in the literal under isinstance(value, str) is a call result (replace/isoformat/str) or Enum members were excluded first")
     run.rule("R4 escape once: no .replace(c, c*2) is applied to text that an identical .replace already went through on the same render path")
     fsk = function_skeletons(program)
@@ -68,6 +69,8 @@ def check(program: Program, run: Run) -> None:
         c = f.cls
         if any(k.name in EXEMPT_CLASSES for k in c.mro):
             continue
+        if c is not None and any(k.name == "ValueWrapper" for k in c.mro):
+            continue      # value wrappers are judged exhaustively and per value kind by R6 below
         all_paths = list(paths(skv, limit=4000, opaque_leaf=True, with_conds=True))
         # quoting that happens inside a transformed string (e.g. quoted first, backslash-doubled afterwards)
         todo = [(p, cs) for flat, cs in all_paths for p in flat if isinstance(p, Opaque)]
@@ -135,7 +138,7 @@ def check(program: Program, run: Run) -> None:
                                     f"{fn} puts {kindtxt} `{what}` between string quotes without doubling the quote character: a quote inside the value ends the literal early",
                                     where=f"{src[2]}:{src[1]}" if src else "", rule="R1")
     run.analysed = {"quote_wrapping_sinks": sinks}
-    if sinks < 8:
+    if sinks < 3:
         raise AnalysisError(f"instance count below floor: quote-wrapping sinks {sinks}")
 
     # ---- R2
@@ -238,3 +241,106 @@ def check(program: Program, run: Run) -> None:
     run.analysed["escape_applications"] = nrep
     if nrep < 3:
         raise AnalysisError(f"instance count below floor: escape applications {nrep}")
+
+    # ---- R6: exhaustive table value kind x wrapper class.  get_value_sql of every wrapper is evaluated with `self.value`
+    # bound to a typed symbolic value of each supported kind; isinstance()/hasattr()/`is None` fold on it, so each cell is
+    # one straight-line skeleton (Enum members unwrapped by the base formatter, dates through isoformat, UUIDs through str).
+    from ..symex import Evaluator
+    BS = "'\\\\'"      # how show() prints the one-character string backslash
+    KINDS = {"str": {"str"}, "str-mixin Enum": {"str", "Enum"}, "Enum(str value)": {"Enum"}, "dict": {"dict"}, "list": {"list"}, "time": {"time"},
+             "date": {"date"}, "datetime": {"datetime", "date"}, "UUID": {"UUID"}, "bool": {"bool", "int"}, "int": {"int"}, "float": {"float"},
+             "Decimal": {"Decimal"}, "DatePart": {"DatePart", "Enum"}}
+    KINDS_BASE = set(KINDS)
+    QUOTED = {"str", "str-mixin Enum", "Enum(str value)", "dict", "list", "time", "date", "datetime", "UUID"}
+    NO_SPECIAL = {"time", "date", "datetime", "UUID"}     # ISO text / hex digits: neither quote nor backslash can occur
+
+    def sigs_in(x, acc, d=0):
+        if d > 80 or isinstance(x, (str, int, float, bool, type(None))):
+            return
+        if isinstance(x, (tuple, list, frozenset)):
+            for i_ in x:
+                sigs_in(i_, acc, d + 1)
+            return
+        if isinstance(x, _Op) and x.name == ".replace" and len(x.extra) >= 2:
+            acc.add(show(x.extra[0], -8))
+        elif isinstance(x, Sym) and x.kind == "call" and x.args and x.args[0] == ".replace" and len(x.args) >= 4:
+            acc.add(show(x.args[2], -8))
+        if dataclasses.is_dataclass(x):
+            for fld in dataclasses.fields(x):
+                if fld.name not in ("src", "cond", "ctx", "recv"):
+                    sigs_in(getattr(x, fld.name), acc, d + 1)
+
+    wrappers = [vw] + [k for k in program.all_classes() if k.is_subclass_of(vw) and k is not vw]
+    # kinds the code itself distinguishes: every type name tested with isinstance() in a wrapper's formatter gets a cell,
+    # so a newly supported kind (bytes, Path, ...) is judged by the same rules without this table being edited
+    known_tags = set().union(*KINDS.values())
+    pkg_classes = {c_.name for c_ in program.all_classes()}
+    for c in wrappers:
+        for mname in ("get_value_sql", "get_formatted_value"):
+            f_ = c.methods.get(mname)
+            if f_ is None:
+                continue
+            for n in ast.walk(f_.node):
+                if isinstance(n, ast.Call) and isinstance(n.func, ast.Name) and n.func.id == "isinstance" and len(n.args) == 2:
+                    specs = n.args[1].elts if isinstance(n.args[1], ast.Tuple) else [n.args[1]]
+                    for sp_ in specs:
+                        nm = sp_.id if isinstance(sp_, ast.Name) else (sp_.attr if isinstance(sp_, ast.Attribute) else None)
+                        if nm and nm not in known_tags and nm not in pkg_classes:
+                            KINDS[nm] = {nm}
+                            known_tags.add(nm)
+    cells = {}
+    for c in wrappers:
+        for kname, tags in KINDS.items():
+            v, _ = render(program, c, "get_value_sql", attrs={"value": Evaluator.typed("v", tags)})
+            cells[(c, kname)] = v
+        cells[(c, "None")] = render(program, c, "get_value_sql", attrs={"value": Const(None)})[0]
+    n6 = 0
+    for c in wrappers:
+        wsigs: set = set()
+        for (c2, kname), v in cells.items():
+            if c2 is c:
+                sigs_in(v, wsigs)
+        backslash_dialect = BS in wsigs
+        for kname in list(KINDS) + ["None"]:
+            v = cells[(c, kname)]
+            txt = show(v, -12)
+            n6 += 1
+            cell = f"{c.qualname} x {kname}"
+            if "rec:" in txt or " isinstance " in txt or " hasattr " in txt:
+                raise AnalysisError(f"unsupported construct: value-kind cell {cell} does not fold: {txt[:120]}")
+            ps: set = set()
+            sigs_in(v, ps)
+            problems = []
+            is_quoted_kind = kname in QUOTED or (kname not in KINDS_BASE and any(quoted_spans([p_ for p_ in fl if not (isinstance(p_, Lit) and not p_.text)])
+                                                                                  for fl in paths(v, limit=64, opaque_leaf=False)))
+            if is_quoted_kind:
+                allp = paths(v, limit=64, opaque_leaf=False, with_conds=True)
+                for fl, pconds in allp:
+                    fl = [p_ for p_ in fl if not (isinstance(p_, Lit) and not p_.text)]
+                    if not any(sp[0] == 0 and sp[1] == len(fl) - 1 for sp in quoted_spans(fl)):
+                        problems.append(("not-quoted", "is not written as one quoted literal"))
+                        break
+                for fl, pconds in paths(v, limit=64, opaque_leaf=True, with_conds=True):
+                    pp: set = set()
+                    sigs_in(fl, pp)
+                    ctxt = [show(cd, -30) for cd in pconds]
+                    # `if <c> in value: value = value.replace(c, c*2)`: on the other path the character does not occur
+                    q_guard = any(cd.startswith("not") and " in <v" in cd and ("secondary_quote_char" in cd) for cd in ctxt)
+                    b_guard = any(cd.startswith("not") and " in <v" in cd and BS in cd for cd in ctxt)
+                    if kname not in NO_SPECIAL and not (any("secondary_quote_char" in sg or sg == '"\'"' for sg in pp) or q_guard):
+                        problems.append(("quote-unescaped", "reaches the quotes on some path without the quote character being doubled"))
+                    if backslash_dialect and kname not in NO_SPECIAL and not (BS in pp or b_guard):
+                        problems.append(("backslash-unescaped", "reaches the quotes on some path without backslashes being doubled although this wrapper doubles them for other kinds: a backslash swallows the next character (a trailing one un-terminates the literal)"))
+                    raw = [p_ for p_ in fl if isinstance(p_, Hole) and isinstance(p_.value, Sym) and p_.value.kind == "typed" and "Enum" in p_.value.args[1]]
+                    if raw:
+                        problems.append(("enum-format", "is formatted as the Enum member itself on some path (Enum.__format__ prints the member's name, not its value)"))
+                problems = list(dict.fromkeys(problems))
+            ok = not problems
+            run.ob("C05/R6 value kind x wrapper: one literal, quote doubled, dialect's backslash rule applied", cell, ok,
+                   detail=f"{txt[:90]} | replacements {sorted(ps)}", where=c.resolve("get_value_sql").loc())
+            for code, msg in problems:
+                run.finding(f"C05/{code}:{c.qualname}:{kname}", f"{c.qualname}.get_value_sql: a value of kind {kname} {msg} (rendering: {txt[:100]})",
+                            where=c.resolve("get_value_sql").loc(), rule="R6")
+    run.analysed["value_kind_cells"] = n6
+    if n6 < 40:
+        raise AnalysisError(f"instance count below floor: value-kind cells {n6}")
